@@ -116,6 +116,100 @@ def scalar_ctor(node):
     return None
 
 
+def param_rebinds(func_node, name):
+    """Stores to the parameter `name` inside a function, classified by what they can do to a caller's value:
+         ("conv", stmt)                  name = int(name) / np.T(name)                       -- the value itself, converted
+         ("none-default", stmt)          a store that happens only when `name is None`        -- resolves a None default
+         ("truthy-default", stmt, node)  name = name or C / a store guarded by `not name`     -- also replaces a legal 0
+         ("other", stmt)                 anything else
+    (syntax-directed: the guards looked at are the enclosing `if` tests)"""
+    out = []
+
+    def is_name(n):
+        return isinstance(n, ast.Name) and n.id == name
+
+    def none_test(t):
+        """+1 if t is `name is None`, -1 if `name is not None`, 0 otherwise."""
+        if isinstance(t, ast.Compare) and len(t.ops) == 1 and is_name(t.left) and isinstance(t.comparators[0], ast.Constant) \
+                and t.comparators[0].value is None:
+            if isinstance(t.ops[0], (ast.Is, ast.Eq)):
+                return 1
+            if isinstance(t.ops[0], (ast.IsNot, ast.NotEq)):
+                return -1
+        return 0
+
+    def truthy_test(t):
+        """+1 if t is `not name` (taken when falsy), -1 if `name` (taken when truthy)."""
+        if isinstance(t, ast.UnaryOp) and isinstance(t.op, ast.Not) and is_name(t.operand):
+            return 1
+        if is_name(t):
+            return -1
+        return 0
+
+    def classify(stmt, value, guards):
+        if is_name(value):
+            return
+        if isinstance(value, ast.Call) and len(value.args) == 1 and not value.keywords and is_name(value.args[0]) \
+                and (dotted(value.func) in ("int", "operator.index") or cast_target(value.func) is not None):
+            out.append(("conv", stmt))
+            return
+        if isinstance(value, ast.BoolOp) and isinstance(value.op, ast.Or) and is_name(value.values[0]):
+            out.append(("truthy-default", stmt, value.values[-1]))
+            return
+        if isinstance(value, ast.IfExp):
+            nt, tt = none_test(value.test), truthy_test(value.test)
+            if (nt == 1 and is_name(value.orelse)) or (nt == -1 and is_name(value.body)):
+                out.append(("none-default", stmt))
+                return
+            if (tt == 1 and is_name(value.orelse)) or (tt == -1 and is_name(value.body)):
+                out.append(("truthy-default", stmt, value.body if tt == 1 else value.orelse))
+                return
+        for t, in_body in reversed(guards):
+            nt, tt = none_test(t), truthy_test(t)
+            if (nt == 1 and in_body) or (nt == -1 and not in_body):
+                out.append(("none-default", stmt))
+                return
+            if (tt == 1 and in_body) or (tt == -1 and not in_body):
+                out.append(("truthy-default", stmt, value))
+                return
+        out.append(("other", stmt))
+
+    def walk(stmts, guards):
+        for st in stmts:
+            if isinstance(st, (ast.FunctionDef, ast.AsyncFunctionDef, ast.ClassDef)):
+                continue
+            if isinstance(st, ast.Assign):
+                for t in st.targets:
+                    if is_name(t):
+                        classify(st, st.value, guards)
+                    elif isinstance(t, (ast.Tuple, ast.List)) and any(is_name(x) for x in ast.walk(t)):
+                        out.append(("other", st))
+            elif isinstance(st, ast.AnnAssign) and is_name(st.target) and st.value is not None:
+                classify(st, st.value, guards)
+            elif isinstance(st, ast.AugAssign) and is_name(st.target):
+                out.append(("other", st))
+            elif isinstance(st, ast.If):
+                walk(st.body, guards + [(st.test, True)])
+                walk(st.orelse, guards + [(st.test, False)])
+            elif isinstance(st, (ast.For, ast.While)):
+                if isinstance(st, ast.For) and any(is_name(x) for x in ast.walk(st.target)):
+                    out.append(("other", st))
+                walk(st.body, guards)
+                walk(st.orelse, guards)
+            elif isinstance(st, ast.With):
+                if any(i.optional_vars is not None and any(is_name(x) for x in ast.walk(i.optional_vars)) for i in st.items):
+                    out.append(("other", st))
+                walk(st.body, guards)
+            elif isinstance(st, ast.Try):
+                walk(st.body, guards)
+                for h in st.handlers:
+                    walk(h.body, guards)
+                walk(st.orelse, guards)
+                walk(st.finalbody, guards)
+    walk(func_node.body, [])
+    return out
+
+
 def array_alloc(node):
     """Describe an array allocation expression.
 
@@ -233,7 +327,7 @@ class RepoFacts:
                 for n in walk_no_nested(f.node):
                     if isinstance(n, ast.Call) and isinstance(n.func, ast.Name):
                         callee = self.model.lookup_func(f.module, n.func.id)
-                        if callee is not None:
+                        if callee is not None and not (callee.is_kernel and callee.is_noop):
                             out.append(KCall(f, n, callee))
             self._kcalls = out
         return self._kcalls
